@@ -18,7 +18,10 @@ EXPLANATION = (
     "term is consumed on every path to the next term - in the constant-term arm (moved to the claimed value) as well as "
     "in the polynomial-term arm (scaling the commitment); liveness alone cannot tell the two apart because either arm "
     "keeps the coefficient live. R5o: a value derived from a term's coefficient is never stored by a map `insert` "
-    "whose replaced entry is discarded (two terms with one key would collapse into the last). R9: the trait default ships `evals` in the iteration "
+    "whose replaced entry is discarded (two terms with one key would collapse into the last). R1p: in the loops of "
+    "open_combinations / check_combinations and the helpers they call, a variable holding scheme data that is carried "
+    "from one iteration to the next is an accumulator of that loop (read after it) - nothing that one equation or "
+    "term leaves behind in a working variable is applied to the next. R9: the trait default ships `evals` in the iteration "
     "order of one ordered container and re-attaches them by zipping with another; the two containers must be ordered "
     "by the same key type, otherwise two point labels that share a point value shift every later evaluation. "
     "Correctness of the homomorphic combination itself is not decided.")
@@ -42,6 +45,22 @@ def run(rep, ctx, tier):
                 rep.add("R5", "%s:anchor" % key, False, "%s not found (fail closed)" % key, None)
                 continue
             R5.check_row(rep, ctx, "R5", key, b, adt, ["EquationHasDegreeBounds"], req)
+    # R1p: every equation is combined from a clean slate - what the loops of open_combinations / check_combinations (and
+    # of the helpers they call) carry from one equation or term to the next is an accumulator read after the loop
+    from ..rules import carried as R1P
+    n_loops = n_carried = 0
+    for sk in ("marlin_kzg10", "marlin_pst13", "sonic_kzg10", "ipa", None):
+        for m in ("open_combinations", "check_combinations"):
+            adt = S[sk]["adt"] if sk else None
+            b = f.find1(m, self_adt=adt, trait=PC) if sk else f.find1(m, in_trait=PC)
+            if b is not None:
+                nl, nc = R1P.run(rep, ctx, "%s.%s" % (sk or "default", m), [b.id], adt, "R1p")
+                n_loops += nl
+                n_carried += nc
+    rep.count("R1p loops", n_loops)
+    if n_loops < 8 or n_carried < 12:
+        rep.add("R1p", "per-item-fresh:floor", False, "only %d per-equation loops / %d carried variables found in the "
+                "combination entry points (counted 14 / 25; fail closed)" % (n_loops, n_carried), None)
     missing = []
     anchors = [a for a in ctx.verifier_anchors(missing) if a.method == "check_combinations"]
     if len(anchors) < 6:
